@@ -71,7 +71,14 @@ def run(tier="quick", seed=0, contracts=None):
     for s in range(nseq):
         arr = rng.random() < 0.4
         cols = ["x", "y", "z"]
-        rc = RowCollector(cols, array=arr)
+        # array storage also with declared (unsigned, narrow, float) column types: the ordering is that of the numbers, whatever the dtype
+        typed = arr and rng.random() < 0.5
+        if typed:
+            import numpy as _np
+            dts = [rng.choice([_np.uint8, _np.uint16, _np.int8, _np.float32]) for _ in cols]
+            rc = RowCollector({c: dict(dtype=dt) for c, dt in zip(cols, dts)}, array=True)
+        else:
+            rc = RowCollector(cols, array=arr)
         model = []
         ops = []
         for step in range(rng.randint(1, 8)):
